@@ -57,6 +57,10 @@ func vhSwapStep(mode int, maxIn, maxOut, rProofs, rPending, rSigs int) {
 	for i := range out {
 		out[i] = vhFreeOutput(fmt.Sprintf("out%d", i))
 	}
+	sigBefore := make([]v.Z, nOut)
+	for i := range out {
+		sigBefore[i] = v.SqlCount(raw, "blind_signatures", "b_", out[i].B_)
+	}
 	usedBefore := make([]v.Z, nIn)
 	pendBefore := make([]v.Z, nIn)
 	for i := range in {
@@ -135,6 +139,12 @@ func vhSwapStep(mode int, maxIn, maxOut, rProofs, rPending, rSigs int) {
 		}
 	} else {
 		v.Reach("swap-rejected")
+		if mode&vhC01 != 0 {
+			for i := range out {
+				v.Assert(v.ZEq(v.SqlCount(raw, "blind_signatures", "b_", out[i].B_), sigBefore[i]),
+					"C01 swap rejected (e.g. by the unique key, the last line of defence) => no signature was stored for its outputs")
+			}
+		}
 		if mode&vhC06 != 0 {
 			v.Assert(v.SqlSame(raw, s0, s1), "C06 rejected swap leaves every table unchanged")
 		}
